@@ -417,6 +417,103 @@ Section LabelsW.
   Qed.
 End LabelsW.
 
+
+(* ----- namespace ----- *)
+
+Lemma same_idkey_getters n n' :
+  same_idkey n n' ->
+  get_kind n' = get_kind n /\ get_api_version n' = get_api_version n /\
+  get_name n' = get_name n /\ get_namespace n' = get_namespace n.
+Proof. intros H. pose proof (same_idkey_ident _ _ H) as Hi. unfold ident in Hi. inversion Hi. auto. Qed.
+
+(* the RoleBinding subject hack only rewrites below `subjects` *)
+Lemma rb_hack_idkey c obj obj' : Namespace.role_binding_hack c obj = Ok obj' -> same_idkey obj obj'.
+Proof. intros H. repeat split; eapply rb_hack_frame_j; eauto. Qed.
+
+(* namespace.Filter on a well-formed document: still well-formed, same kind and apiVersion, the name is kept or
+   (kind Namespace, apiVersion v1: the metadata/name row of the namespace table) becomes the namespace itself *)
+Lemma ns_filter_wf_doc ns n n' :
+  wf_node n -> good ns = true ->
+  Namespace.ns_filter gen_ns_scope (ns_config ns) n = Ok n' ->
+  wf_node n' /\ get_kind n' = get_kind n /\ get_api_version n' = get_api_version n /\
+  (get_name n' = get_name n \/ get_name n' = ns).
+Proof.
+  intros Hw Hgood H. unfold Namespace.ns_filter in H. cbn [Namespace.ns_fss ns_config] in H.
+  change (Namespace.ns_setter (ns_config ns)) with (set_str_entry ns) in H.
+  match type of H with bind ?e _ = _ => destruct e as [n1| | |] eqn:H1 end; cbn [bind] in H; try discriminate.
+  assert (Hn1: wf_node n1 /\ get_kind n1 = get_kind n /\ get_api_version n1 = get_api_version n /\
+               get_name n1 = get_name n).
+  { destruct (Namespace.obj_cluster_scoped gen_ns_scope n); [inv H1; auto|].
+    cbn [fsslice_apply] in H1.
+    destruct (fs_apply (Some KScalar) TNone (set_str_entry ns) (mkFs "" "" "" "metadata/namespace" true) n)
+      as [x| | |] eqn:E; cbn [bind] in H1; try discriminate. inv H1.
+    eapply meta_namespace_set; eauto. }
+  destruct Hn1 as (W1 & K1 & A1 & N1).
+  assert (Hl : forall l, forallb ns_spec_ok (Namespace.prune_subjects (Namespace.prune_meta l gen_namespace_fs)) = true /\
+                         forallb ns_spec_ok (Namespace.prune_meta l gen_namespace_fs) = true).
+  { intros l. unfold Namespace.prune_subjects, Namespace.prune_meta.
+    split; repeat apply forallb_filter; exact gen_namespace_table_ok. }
+  destruct (Namespace.is_role_binding (obj_kind n)).
+  - destruct (Namespace.role_binding_hack (ns_config ns) n1) as [n2| | |] eqn:ER; cbn [bind] in H; try discriminate.
+    pose proof (rb_hack_idkey _ _ _ ER) as Hk. pose proof (wf_node_idkey _ _ Hk W1) as W2.
+    destruct (same_idkey_getters _ _ Hk) as (K2 & A2 & N2 & _).
+    destruct (fsslice_ns_inv cs (fun _ => false) ns _ _ _ (proj1 (Hl _)) Hgood W2 H) as (W & K & A & N).
+    split; [exact W|]. split; [congruence|]. split; [congruence|]. rewrite <- N1, <- N2. exact N.
+  - destruct (fsslice_ns_inv cs (fun _ => false) ns _ _ _ (proj2 (Hl _)) Hgood W1 H) as (W & K & A & N).
+    split; [exact W|]. split; [congruence|]. split; [congruence|]. rewrite <- N1. exact N.
+Qed.
+
+Lemma ns_one_W ns r r' : good ns = true -> W r -> ns_one ns r = Ok r' -> W r'.
+Proof.
+  intros Hg HW H. unfold ns_one in H.
+  assert (Hnode: r_node (store_previous_id cs r) = r_node r) by (rewrite store_previous_id_eq; reflexivity).
+  rewrite Hnode in H.
+  destruct (Namespace.ns_filter gen_ns_scope (ns_config ns) (r_node r)) as [n'| | |] eqn:Hf; cbn [bind] in H; try discriminate.
+  inv H. destruct HW as [[Hh Hw] Hk].
+  destruct (ns_filter_wf_doc _ _ _ Hw Hg Hf) as (Wn & K & A & _).
+  destruct (store_then_update cs r n' (conj Hh Hw) Wn K A) as [Wr _]. split; [exact Wr|].
+  pose proof (kinds_const_store r (conj (conj Hh Hw) Hk)) as Hks.
+  unfold kinds_const in *. cbn [r_node r_pkinds with_node]. rewrite K.
+  rewrite store_previous_id_eq in *. cbn [r_node r_pkinds] in *. exact Hks.
+Qed.
+
+Lemma count_id_app id l1 l2 : count_id cs id (l1 ++ l2) = count_id cs id l1 + count_id cs id l2.
+Proof. unfold count_id. rewrite filter_app, app_length. reflexivity. Qed.
+
+Lemma id_equals_refl_rid r : id_equals (cur_id cs r) (cur_id cs r) = true.
+Proof.
+  unfold id_equals, id_ns_equals, id_gvkn_equals, gvk_equals. rewrite !String.eqb_refl. reflexivity.
+Qed.
+
+(* NamespaceTransformer: the id-conflict test makes the result collision-free by itself *)
+Lemma ns_loop_W ns : good ns = true -> forall todo done out,
+  Forall W todo -> Forall W done -> distinct_ids done ->
+  ns_loop ns done todo = Ok out -> Forall W out /\ distinct_ids out.
+Proof.
+  intros Hg. induction todo as [|r t IH]; intros done out HT HD Hd H; cbn [ns_loop] in H.
+  - inv H. auto.
+  - inversion HT as [|? ? Wr Wt]; subst. rewrite (W_not_empty _ Wr) in H.
+    destruct (ns_one ns r) as [r2| | |] eqn:E; cbn [bind] in H; try discriminate.
+    destruct (Nat.eqb _ 1) eqn:EC; [|discriminate]. apply Nat.eqb_eq in EC.
+    pose proof (ns_one_W _ _ _ Hg Wr E) as W2.
+    eapply IH; [exact Wt| | |exact H].
+    + apply Forall_app. split; [exact HD|constructor; [exact W2|constructor]].
+    + apply distinct_ids_snoc. split; [exact Hd|].
+      rewrite count_id_app in EC. cbn [app] in EC.
+      assert (E0 : count_id cs (cur_id cs r2) done = 0).
+      { unfold count_id in EC |- *. cbn [filter] in EC. rewrite id_equals_refl_rid in EC. cbn [List.length] in EC. lia. }
+      apply count_id_zero. exact E0.
+Qed.
+
+Lemma namespace_transform_W ns m m' :
+  no_char ","%char ns = true -> Forall W m -> distinct_ids m ->
+  namespace_transform ns m = Ok m' -> Forall W m' /\ distinct_ids m'.
+Proof.
+  intros Hn HW Hd. unfold namespace_transform. destruct (String.eqb ns "") eqn:E; [intros H; inv H; auto|].
+  assert (Hg : good ns = true) by (unfold good; rewrite E, Hn; reflexivity).
+  intros H. eapply (ns_loop_W ns Hg m [] m'); eauto; try constructor; try exact I.
+Qed.
+
 (* ----- generators ----- *)
 
 Definition gen_good (g : pgen) : Prop := good (pg_name g) = true /\ no_char ","%char (pg_ns g) = true.
@@ -446,10 +543,10 @@ Qed.
 
 Definition Inv (m : list resource) : Prop := Forall W m /\ distinct_ids m.
 
-(* the class: well-formed documents, no namespace directive, no custom label fields, generators that create
-   with good names, comma-free prefixes and suffixes *)
+(* the class: well-formed documents, no custom label fields, generators that create with good names,
+   comma-free namespace, prefixes and suffixes *)
 Definition dirs_wf (d : pdirs) : Prop :=
-  pd_ns d = "" /\ no_custom_fields d /\ gens_create d /\
+  no_char ","%char (pd_ns d) = true /\ no_custom_fields d /\ gens_create d /\
   Forall gen_good (pd_cmgens d) /\ Forall gen_good (pd_secgens d) /\
   no_char ","%char (pd_prefix d) = true /\ no_char ","%char (pd_suffix d) = true.
 
@@ -493,8 +590,9 @@ Section Acc.
 
   Lemma run_kind_Inv k d m m' : dirs_wf d -> Inv m -> run_kind nonstr k d m = Ok m' -> Inv m'.
   Proof.
-    intros (Hns & Hn & _ & _ & _ & Hp & Hs) [HW Hd]. unfold run_kind. rewrite Hns.
-    destruct (String.eqb k "NamespaceTransformer"); [cbn; intros H; inv H; split; assumption|].
+    intros (Hns & Hn & _ & _ & _ & Hp & Hs) [HW Hd]. unfold run_kind.
+    destruct (String.eqb k "NamespaceTransformer").
+    { intros H. destruct (namespace_transform_W _ _ _ Hns HW Hd H) as [W' D']. split; auto. }
     destruct (String.eqb k "PrefixTransformer").
     { intros H. destruct (prefix_transform_W _ _ _ Hp HW H) as [W' D']. split; auto. }
     destruct (String.eqb k "SuffixTransformer").
@@ -603,6 +701,49 @@ Proof.
   apply np_bind; [apply np_prev_ids; exact (proj1 (proj1 Hr))|]. intros p _. apply np_bind; [apply IH|]. intros; discriminate.
 Qed.
 
+(* namespace.Filter never panics, whatever the document *)
+Lemma np_walk {A} cr ps (k : node -> res (node * A)) n : (forall x, np (k x)) -> np (walk cr ps k n).
+Proof. intros H. apply TotalityProofs.walk_never_panics. exact H. Qed.
+
+Lemma np_ns_setter c n : np (Namespace.ns_setter c n).
+Proof. unfold Namespace.ns_setter. destruct (_ && _); [discriminate|apply TotalityProofs.set_scalar_total]. Qed.
+
+Lemma np_visit_subject c field value o : np (Namespace.visit_subject c field value o).
+Proof.
+  unfold Namespace.visit_subject. apply np_bind; [apply np_walk; intros; discriminate|]. intros r _.
+  destruct (snd r) as [x|]; [|discriminate]. destruct (is_null x); [discriminate|].
+  destruct x; try discriminate. destruct (String.eqb v value); [|discriminate].
+  apply np_bind; [|intros; discriminate]. apply np_walk. intros n.
+  apply np_bind; [apply np_ns_setter|]. intros; discriminate.
+Qed.
+
+Lemma np_role_binding_hack c obj : np (Namespace.role_binding_hack c obj).
+Proof.
+  unfold Namespace.role_binding_hack. destruct (Namespace.ns_mode c); try discriminate.
+  all: apply np_bind; [|intros; discriminate]; apply np_walk; intros subj.
+  all: destruct (is_null subj); [discriminate|]; destruct subj; try discriminate.
+  all: apply np_bind; [apply np_mapM_in; intros; apply np_visit_subject|]; intros; discriminate.
+Qed.
+
+Lemma np_ns_filter c obj : np (Namespace.ns_filter gen_ns_scope c obj).
+Proof.
+  unfold Namespace.ns_filter. apply np_bind.
+  - destruct (Namespace.obj_cluster_scoped gen_ns_scope obj); [discriminate|].
+    apply TotalityProofs.fsslice_apply_no_panic. apply np_ns_setter.
+  - intros o1 _. destruct (Namespace.is_role_binding (obj_kind obj)).
+    + apply np_bind; [apply np_role_binding_hack|]. intros o2 _.
+      apply TotalityProofs.fsslice_apply_no_panic. apply np_ns_setter.
+    + apply TotalityProofs.fsslice_apply_no_panic. apply np_ns_setter.
+Qed.
+
+Lemma np_ns_loop ns todo : forall done, np (ns_loop ns done todo).
+Proof.
+  induction todo as [|r t IH]; intros done; cbn [ns_loop]; [discriminate|].
+  destruct (nil_or_empty (r_node r)); [apply IH|].
+  apply np_bind; [unfold ns_one; apply np_bind; [apply np_ns_filter|intros; discriminate]|].
+  intros r2 _. destruct (Nat.eqb _ 1); [apply IH|discriminate].
+Qed.
+
 Section NoPanic.
   Variable nonstr : string -> bool.
 
@@ -684,8 +825,9 @@ Section NoPanic.
 
   Lemma np_run_kind k d m : dirs_wf d -> Inv m -> np (run_kind nonstr k d m).
   Proof.
-    intros (Hns & _) [HW _]. unfold run_kind. rewrite Hns.
-    destruct (String.eqb k "NamespaceTransformer"); [cbn; discriminate|].
+    intros (Hns & _) [HW _]. unfold run_kind.
+    destruct (String.eqb k "NamespaceTransformer").
+    { unfold namespace_transform. destruct (String.eqb _ ""); [discriminate|apply np_ns_loop]. }
     destruct (String.eqb k "PrefixTransformer").
     { unfold prefix_transform. destruct (String.eqb _ ""); [discriminate|]. apply np_mapM_in. intros r Hr.
       unfold prefix_one. rewrite Forall_forall in HW. apply np_bind; [apply np_org_id; auto|]. intros org _.
